@@ -10,3 +10,5 @@ for c in "$@"; do
   grep -E "^VIOLATION|signature=|MACHINERY" /tmp/seedeval-$c.out | cut -c1-260 | head -6
 done
 git -C /repo checkout -- . ; git -C /repo status --short | grep -v '^??' | head -3
+# the harness binary was built from the patched tree: rebuild it from the restored one
+cd /verif && bin/check build >/dev/null 2>&1
